@@ -274,11 +274,16 @@ def batch_task(family, texts, stdin_text):
     mods = []
     items = []   # (k, level, name, src)
     for k, t in enumerate(texts):
+        if st.n.get('emit_timeouts', 0) >= 3:
+            st.inc('skipped_after_emit_timeouts', len(texts) - k)
+            break           # the compiler hangs (20 s per program): three examples are enough, the rest of this batch is left out
         for lv in (0, 1, 2):
             kind, payload = emit(sh, t, lv)
             st.inc('emitted')
             case = {'kind': 'compile', 'prog': t, 'level': lv, 'stdin': stdin_text}
             if kind == 'crash':
+                if payload.startswith('sig=14'):          # the alarm of the child: no answer within 20 s
+                    st.inc('emit_timeouts')
                 st.violate(Violation('C03', 'compile', family + ':emit-crash', case, 'source text', payload))
                 continue
             if kind == 'opterr':
